@@ -56,10 +56,10 @@ META = {
         "technique": "Lean 4 frame/invariant proofs (induction over histories) on a tree model; differential random histories with full observation of every logger",
     },
     "C20": {
-        "text": "Partial proof: totality of the formatter for every int64 value in both styles (exact length bound 33 <= regenerated array length; 32 is proved insufficient), sign handling and the unit table are theorems. Invertibility (parse after format) and agreement with time.ParseDuration are decided by differential execution of the Lean model (with Lean's IEEE Float for the parser's one float64 expression), the implementation and the standard parser over boundary-biased values and grammar-generated/mutated strings: those two clauses are not kernel-checked.",
-        "design_ref": "DESIGN.md §7 C20",
-        "note": "Trusted: Lean kernel; extractor (array length, unit table); Lean Float = IEEE binary64; time.ParseDuration as reference. Not proved: round trip, agreement (correspondence only).",
-        "technique": "Lean 4 proof of totality (length bounds by arithmetic on digit counts); differential value-space and grammar sweep for round trip and agreement",
+        "text": "Proof: totality of the formatter for every int64 value in both styles (exact length bound 33 <= regenerated array length; 32 is proved insufficient); invertibility: parseDuration (durText d frac) = ok d for every int64 d and both styles (theorem round_trip, with the parser's one float64 product at its exact value - assumption A1, validated on every run on its whole domain); agreement: for every byte string and any behaviour of the float64 step the parser equals the same parser over time.ParseDuration's unit table, or the latter rejected the day unit (theorem agrees_with_std). The model (incl. the standard-table instance) is tied to the implementation and to time.ParseDuration by differential execution over boundary-biased values and grammar-generated/mutated strings.",
+        "design_ref": "DESIGN.md §7 C20, §12.4",
+        "note": "Trusted: Lean kernel; extractor (array length, unit table); A1 (float64 exactness on the formatter's fractions; Lean Float = IEEE binary64 in the driver); time.ParseDuration as reference for the standard-table model.",
+        "technique": "Lean 4 proofs: length bounds by digit-count arithmetic; round trip by induction over digit lists and printed fields; agreement by induction over the parser loop with an uninterpreted float step; differential value-space and grammar sweep as the tie",
     },
     "C19": {
         "text": "Partial proof: over a method-by-method model of the buffer (read offset, unread bookkeeping, grow with its four branches) the representation invariant is proved for every operation sequence (induction), hence no out-of-range slice panic, and the only panics are the documented ones; algebraic laws of Write/Reset/Truncate are proved. Observational equivalence with bytes.Buffer is decided by three-way differential lock-step (PrintCtx vs model, bytes.Buffer vs model, PrintCtx vs bytes.Buffer) over random operation sequences with boundary sizes, invalid runes and failing readers/writers; the Go runtime's capacity growth is an oracle input, not modelled.",
@@ -74,16 +74,16 @@ META = {
         "technique": "Lean 4 proof quantified over permutations (List.Perm) of the mapping table; differential run with permutation-set acceptance",
     },
     "C04": {
-        "text": "Proof over a byte-exact encoder model (tied by byte-for-byte correspondence on generated records): whatever bytes the message, the logger name, the keys and the string-like values contain, what the JSON escaper puts between quotes is a well-formed JSON string body (no unescaped quote, no raw control byte, only legal escapes - proved for all byte strings), and the whole record is one line whose only control byte is the final line feed, given control-free standard-library atoms. Decoding fidelity is checked by the encoding/json oracle on every generated record.",
+        "text": "Proof over a byte-exact encoder model (tied by byte-for-byte correspondence on generated records): whatever bytes the message, the logger name, the keys and the string-like values contain, what the JSON escaper puts between quotes is a well-formed JSON string body (proved for all byte strings) that decodes back to the logged string (all valid UTF-8 strings); the whole record is one line; and the object reads back: a member reader finds exactly one member per logged field in the order written, each under its escaped key with the encoder's value text, groups again objects of exactly their members at any depth (theorems json_record_reads_back, json_group_reads_back; mutual induction over values and groups). That Go's decoder agrees with the reader model, and the numeric/time value texts, are checked by the encoding/json oracle and Q jmem probes on every run.",
         "design_ref": "DESIGN.md §7 C04",
-        "note": "Trusted: Lean kernel; strconv.IsPrint table; atoms from strconv/time/fmt; encoding/json as oracle. Not kernel-checked: full JSON grammar validity of the nested value structure (oracle + correspondence).",
-        "technique": "Lean 4 proofs on escapers and by mutual induction over the value/attribute encoders; byte-exact differential run; JSON decoder oracle",
+        "note": "Trusted: Lean kernel; strconv.IsPrint table; atoms from strconv/time/fmt (hypothesis: no quote or backslash in the ones written raw between quotes); the member reader model (compared with encoding/json on every produced line); encoding/json as oracle for value decoding.",
+        "technique": "Lean 4 proofs on escapers (safety and round trip) and by mutual induction over the value/attribute encoders (one line; object members read back); byte-exact differential run; JSON decoder oracle and reader-model probes",
     },
     "C05": {
-        "text": "Proof over the same encoder model in logfmt mode: Go-syntax quoting of any byte string contains no control byte and no DEL (so CR/LF/ESC can neither split the line nor reach the terminal), and a whole record is exactly one line given control-free atoms and legal keys (mutual induction over values, groups at any depth and position). The parse-back of every pair is checked by the tokenizer + strconv.Unquote oracle on every generated record, and the model is tied byte for byte.",
+        "text": "Proof over the same encoder model in logfmt mode: Go-syntax quoting of any byte string contains no control byte and reads back exactly (strconv.Unquote model, all byte strings); a whole record is exactly one line; and the line parses back: a logfmt reader finds exactly one key=value pair per logged field in the order written, groups flattened under dotted keys at any depth and position (theorem logfmt_line_parses_back; mutual induction over values and groups) - no value can split a token or forge a pair. The reader model is compared with the oracle's tokenizer (Q tok probes) and the values with strconv.Unquote on every generated record; the model is tied byte for byte.",
         "design_ref": "DESIGN.md §7 C05",
-        "note": "Trusted: Lean kernel; strconv.IsPrint table (guarded: printable implies >= 0x20 and != 0x7f); atoms; strconv.Unquote as oracle. Production mode only (error dump off).",
-        "technique": "Lean 4 proofs (escaper cleanliness, one-line theorem by mutual induction); byte-exact differential run; logfmt tokenizer oracle",
+        "note": "Trusted: Lean kernel; strconv.IsPrint table (guarded: printable implies >= 0x20 and != 0x7f); atoms; the logfmt reader model (compared with the harness tokenizer); strconv.Unquote as oracle. Hypotheses of the parse-back theorem: keys without space, quote, '='; bare atoms without space, quote; raw quoted texts without quote, backslash. Production mode only (error dump off).",
+        "technique": "Lean 4 proofs (escaper cleanliness and round trip, one-line theorem and whole-line parse-back by mutual induction); byte-exact differential run; logfmt tokenizer oracle and reader-model probes",
     },
     "C06": {
         "text": "Partial proof over the encoder model in colored mode (tied byte for byte on the fidelity domain): layout and colour hygiene theorems in Props/C06; the colour helpers of hedzr/is and the markup translator are modelled from their source / bypassed on the domain (no '<' or '&'), not verified. Oracle: SGR state tracker + stripped-layout parser on every generated record.",
